@@ -91,8 +91,20 @@ func (s StringSchema) ValidateCompatibility(typeOrData any) error {
 	}
 
 	if schemaType.TypeID() == TypeIDStringEnum {
-		// For now, just accept the enums. Consider more validations later.
-		return nil
+		// An enum can be consumed if at least one of the values it offers can.
+		values := enumValuesOf(schemaType)
+		if len(values) == 0 {
+			// An enum that offers nothing has nothing that could be refused.
+			return nil
+		}
+		for _, value := range values {
+			if value.Kind() == reflect.String && s.Validate(value.String()) == nil {
+				return nil
+			}
+		}
+		return &ConstraintError{
+			Message: "none of the values of the string enum satisfies the length and pattern constraints of the string schema",
+		}
 	} else if schemaType.TypeID() != TypeIDString {
 		return &ConstraintError{
 			Message: fmt.Sprintf("unsupported data type for 'string' type: %T", schemaType),
